@@ -17,7 +17,7 @@ from ..harness import WORK, watchdog, WatchdogTimeout, digest
 from ..monitors import StageTrace
 
 MANIFEST = {
-    'text': 'Held on every ensemble call executed: ensemble_sift and complete_ensemble_sift are run for nensembles 1..8 x nprocesses 1..8 x noise_mode {single, flip} x noise {0, 0.05, 2} with delay injection in the workers; the noisy input of every member decomposition is captured byte-for-byte in whichever process sifts it; members must have pairwise distinct noise (flip: +- pairs), the count of decompositions must match, the output must equal the per-IMF member mean recomputed from the captured inputs (1e-12), and zero noise must equal the classic sift. Calls where jobs did not land on >= 2 different worker pids cannot show duplicated fork state; too few such calls makes the run inconclusive. OS schedules are sampled, not enumerated. Schedules: the same deterministic calls made from 4-5 threads of one interpreter at once (thread switch every 1-10 microseconds) must reproduce the results obtained alone. A quarter of the shards run in a session that turns Deprecation/Future/UserWarnings into errors.',
+    'text': 'Held on every ensemble call executed: ensemble_sift and complete_ensemble_sift are run for nensembles 1..8 x nprocesses 1..8 x noise_mode {single, flip} x noise {0, 0.05, 2} with delay injection in the workers, on float64 recordings and (an eighth of the cases) integer recordings of 3-40 counts amplitude; the noisy input of every member decomposition is captured byte-for-byte in whichever process sifts it; members must have pairwise distinct noise (flip: +- pairs), the count of decompositions must match, the output must equal the per-IMF member mean recomputed from the captured inputs (1e-12), and zero noise must equal the classic sift. Calls where jobs did not land on >= 2 different worker pids cannot show duplicated fork state; too few such calls makes the run inconclusive. OS schedules are sampled, not enumerated. Schedules: the same deterministic calls made from 4-5 threads of one interpreter at once (thread switch every 1-10 microseconds) must reproduce the results obtained alone. A quarter of the shards run in a session that turns Deprecation/Future/UserWarnings into errors.',
     'note': 'Trusted: fork start method (asserted), the classic sift used to recompute member decompositions (C01-C04), numpy/scipy. If a member lacks a component, either the zero-padded mean or absence of the column is accepted.',
     'technique': 'offline history checker over per-process event logs (unique noise digests per member, recomputed member mean), delay injection for schedule diversity',
 }
@@ -294,6 +294,9 @@ def gen_case(rng):
     fam = gens.pick(rng, ['noise', 'walk', 'tones', 'amfm', 'spikes', 'periodic'])
     n = int(rng.integers(100, 251)) if rng.random() < .65 else int(rng.integers(20, 70))   # short records: members differ in IMF count
     x = gens.signal(rng, fam, n)
+    if rng.random() < .12:
+        # integer recordings of small amplitude (counts, quantised sensors): the noise is a fraction of one quantisation step
+        x = np.round(x / max(np.abs(x).max(), 1e-12) * float(gens.pick(rng, [3, 8, 40]))).astype(gens.pick(rng, [np.int16, np.int32, np.int64]))
     io = gens.imf_opts(rng)
     if io['stop_method'] != 'fixed':
         io['max_iters'] = 1000
